@@ -667,6 +667,68 @@ def import_closure(root="isoquant.py"):
     return seen
 
 
+def _self_mutations(trees, owner, name, mutators):
+    """mutations of a class-body container reached through an instance: `self.<name>.<mutator>(...)`,
+    `self.<name>[...] = ...`, `self.<name> += ...` inside methods of `owner` or of a class deriving from it, unless
+    that class gives every instance its own object (`self.<name> = ...` in its `__init__` or in the `__init__` of
+    `owner`).  Such a container is shared by all instances of the process although no `Owner.`/`cls.` spelling occurs."""
+    classes = {}
+    for rel, tree in trees.items():
+        for n in ast.walk(tree):
+            if isinstance(n, ast.ClassDef):
+                classes.setdefault(n.name, []).append((rel, n))
+
+    def rebinds_in_init(cnode):
+        for m in cnode.body:
+            if isinstance(m, ast.FunctionDef) and m.name == "__init__":
+                for n in ast.walk(m):
+                    if isinstance(n, (ast.Assign, ast.AnnAssign)):
+                        ts = n.targets if isinstance(n, ast.Assign) else [n.target]
+                        for t in ts:
+                            if isinstance(t, ast.Attribute) and t.attr == name and isinstance(t.value, ast.Name) \
+                                    and t.value.id == "self":
+                                return True
+        return False
+
+    def derives(cnode, seen=()):
+        if cnode.name == owner:
+            return True
+        for b in cnode.bases:
+            bn = b.id if isinstance(b, ast.Name) else (b.attr if isinstance(b, ast.Attribute) else None)
+            if bn and bn not in seen:
+                for _, c in classes.get(bn, []):
+                    if derives(c, seen + (cnode.name,)):
+                        return True
+        return False
+
+    owner_rebinds = any(rebinds_in_init(c) for _, c in classes.get(owner, []))
+    is_self = lambda v: isinstance(v, ast.Attribute) and v.attr == name and isinstance(v.value, ast.Name) and v.value.id == "self"
+    sites = []
+    for cname, lst in classes.items():
+        for rel, cnode in lst:
+            if not derives(cnode):
+                continue
+            if rebinds_in_init(cnode) or (cnode.name != owner and owner_rebinds and not any(
+                    isinstance(m, ast.FunctionDef) and m.name == "__init__" for m in cnode.body)):
+                continue      # every instance has its own object
+            if cnode.name == owner and owner_rebinds:
+                continue
+            for m in cnode.body:
+                if not isinstance(m, (ast.FunctionDef, ast.AsyncFunctionDef)):
+                    continue
+                for n in ast.walk(m):
+                    if isinstance(n, ast.Call) and isinstance(n.func, ast.Attribute) and n.func.attr in mutators \
+                            and is_self(n.func.value):
+                        sites.append("%s:%d" % (rel, n.lineno))
+                    elif isinstance(n, (ast.Assign, ast.AugAssign)):
+                        for t in (n.targets if isinstance(n, ast.Assign) else [n.target]):
+                            if isinstance(t, ast.Subscript) and is_self(t.value):
+                                sites.append("%s:%d" % (rel, n.lineno))
+                            elif isinstance(n, ast.AugAssign) and is_self(t):
+                                sites.append("%s:%d" % (rel, n.lineno))
+    return sites
+
+
 def gen_shared_state():
     """class-level and module-level state with at least one mutation site in the code base.
     Kinds: class-body containers / counters / distributors; module-level containers; module variables rebound
@@ -724,6 +786,8 @@ def gen_shared_state():
                     continue
                 if tgt is not None and _refers(tgt, kind, owner, name, rel == rel2):
                     sites.append("%s:%d" % (rel2, n.lineno))
+        if kind == "class" and container:
+            sites += _self_mutations(trees, owner, name, mutators)
         if sites:
             inventory.append({"kind": kind, "file": rel, "owner": owner, "name": name, "sites": sorted(set(sites))})
     # args fields assigned outside isoquant.py
@@ -888,6 +952,47 @@ def _functions(tree):
     return res
 
 
+FILL_METHODS = {"append", "extend", "insert", "setdefault", "update", "appendleft"}
+ORDER_CONSUMERS = {"sorted", "list", "tuple", "min", "max", "next", "iter", "enumerate", "zip", "map", "filter"}
+
+
+def _order_sinks(fn, loop):
+    """order-sensitive uses, anywhere in `fn`, of the dict / list containers that are filled in the body of `loop`
+    (a `for` over a set): `sorted(…)`, `min/max(…)`, `list(…)`, `for … in …`, comprehensions, `join` over them"""
+    filled = set()
+    for n in ast.walk(ast.Module(body=loop.body, type_ignores=[])):
+        tgt = None
+        if isinstance(n, (ast.Assign, ast.AugAssign)):
+            for t in (n.targets if isinstance(n, ast.Assign) else [n.target]):
+                if isinstance(t, ast.Subscript):
+                    tgt = t.value
+        elif isinstance(n, ast.Call) and isinstance(n.func, ast.Attribute) and n.func.attr in FILL_METHODS:
+            tgt = n.func.value
+        while isinstance(tgt, ast.Subscript):
+            tgt = tgt.value
+        if isinstance(tgt, (ast.Name, ast.Attribute)):
+            filled.add(ast.unparse(tgt))
+    if not filled:
+        return []
+
+    def mentions(e):
+        return any(isinstance(x, (ast.Name, ast.Attribute)) and ast.unparse(x) in filled for x in ast.walk(e))
+    sinks = set()
+    for n in ast.walk(fn):
+        if n is loop:
+            continue
+        if isinstance(n, ast.Call) and isinstance(n.func, ast.Name) and n.func.id in ORDER_CONSUMERS and n.args \
+                and mentions(n.args[-1] if n.func.id in ("map", "filter") else n.args[0]):
+            sinks.add(ast.unparse(n).replace('"', "'")[:110])
+        elif isinstance(n, ast.Call) and isinstance(n.func, ast.Attribute) and n.func.attr == "join" and n.args and mentions(n.args[0]):
+            sinks.add(ast.unparse(n).replace('"', "'")[:110])
+        elif isinstance(n, (ast.For, ast.comprehension)) and mentions(n.iter):
+            inner = n.iter
+            if not (isinstance(inner, ast.Call) and isinstance(inner.func, ast.Name) and inner.func.id in ORDER_CONSUMERS):
+                sinks.add("for:" + ast.unparse(inner).replace('"', "'")[:80])
+    return sorted(sinks)
+
+
 def gen_set_sites():
     """every place where the iteration order of a `set` can be observed (for / comprehension / list() / join() /
     pop() ... over an expression known to be a set and not wrapped in sorted()), every call of a run-dependent
@@ -934,7 +1039,15 @@ def gen_set_sites():
                 elif isinstance(n, ast.Starred):
                     it, kind = n.value, "star"
                 if it is not None and _is_set_expr(it, names, setattrs, setdicts):
-                    sites.add("%s:%s:%s:%s" % (mod, qn, kind, ast.unparse(it).replace('"', "'")[:60]))
+                    site = "%s:%s:%s:%s" % (mod, qn, kind, ast.unparse(it).replace('"', "'")[:60])
+                    if isinstance(n, ast.For):
+                        # containers filled inside the loop inherit the set's order (dict / list insertion order);
+                        # their order-sensitive consumers in the same function are part of the site's identity, so
+                        # that e.g. a changed sort key re-opens the site
+                        sinks = _order_sinks(fn, n)
+                        if sinks:
+                            site += " => " + " ; ".join(sinks)
+                    sites.add(site)
                 if isinstance(n, ast.Call):
                     f = n.func
                     if isinstance(f, ast.Name) and (None, f.id) in NONDET_CALLS:
@@ -1690,6 +1803,61 @@ def gen_sample_state():
                 if isinstance(dflt, (ast.List, ast.Dict, ast.Set, ast.Call, ast.ListComp, ast.DictComp, ast.SetComp)):
                     default_objs.append((frel, qn, ast.unparse(dflt).replace('"', "'")))
     default_objs.sort()
+    # H. class-level numeric counters of the inventory: every read of the counter.  A read inside the test of an
+    #    `if` is rendered by the statements that `if` guards ("log" for a call of a logger method, else the
+    #    statement type); any other read (assignment, return, while, conditional expression, ...) as "read".
+    #    `X += n` is a write, not a read.
+    _, ssinfo0 = gen_shared_state()
+    numeric_items = []
+    for it in ssinfo0["shared_state"]:
+        if it["kind"] != "class":
+            continue
+        ctree = parse(it["file"])
+        cdef = find_def(ctree, it["owner"])
+        for m in cdef.body:
+            if isinstance(m, ast.Assign) and len(m.targets) == 1 and isinstance(m.targets[0], ast.Name) \
+                    and m.targets[0].id == it["name"] and isinstance(m.value, ast.Constant) \
+                    and isinstance(m.value.value, (int, float)) and not isinstance(m.value.value, bool):
+                numeric_items.append(it)
+
+    def _is_log_call(st):
+        return (isinstance(st, ast.Expr) and isinstance(st.value, ast.Call) and isinstance(st.value.func, ast.Attribute)
+                and isinstance(st.value.func.value, ast.Name) and st.value.func.value.id in ("logger", "logging")
+                and st.value.func.attr in ("debug", "info", "warning", "error", "critical"))
+
+    def _guarded_kinds(stmts, is_ref):
+        kinds = []
+        for st in stmts:
+            if isinstance(st, ast.If):
+                # a nested `if` adds its own guarded statements (its test may read other things)
+                kinds += _guarded_kinds(st.body, is_ref) + _guarded_kinds(st.orelse, is_ref)
+            elif _is_log_call(st):
+                kinds.append(("log", st.lineno))
+            elif isinstance(st, ast.Pass):
+                kinds.append(("log", st.lineno))
+            else:
+                kinds.append((type(st).__name__, st.lineno))
+        return kinds
+
+    counter_reads = []
+    for it in numeric_items:
+        item = "%s.%s" % (it["owner"], it["name"])
+        for rel2 in files:
+            t2 = parse(rel2)
+
+            def is_ref(n, _rel=rel2, _it=it):
+                return _refers(n, "class", _it["owner"], _it["name"], _rel == _it["file"])
+            in_if_test = set()
+            for n in ast.walk(t2):
+                if isinstance(n, ast.If) and any(is_ref(x) for x in ast.walk(n.test)):
+                    for x in ast.walk(n.test):
+                        in_if_test.add(id(x))
+                    for kind, ln in _guarded_kinds(n.body, is_ref) + _guarded_kinds(n.orelse, is_ref):
+                        counter_reads.append((item, "%s:%d" % (rel2, ln), kind))
+            for n in ast.walk(t2):
+                if isinstance(n, ast.Attribute) and is_ref(n) and isinstance(n.ctx, ast.Load) and id(n) not in in_if_test:
+                    counter_reads.append((item, "%s:%d" % (rel2, n.lineno), "read"))
+    counter_reads = sorted(set(counter_reads))
     # F. the polyA percentage threshold that switches requires_polya_for_construction on (isoquant.py)
     iq = parse("isoquant.py")
     thr = None
@@ -1730,6 +1898,13 @@ def gen_sample_state():
            "/-- (file, function, expression) of default argument values that are objects built at definition time -/",
            "def default_argument_objects : List (String × String × String) := [" +
            ", ".join('("%s", "%s", "%s")' % d for d in default_objs) + "]", "",
+           "/-- class-level numeric counters of the shared-state inventory -/",
+           "def numeric_counters : List String := " +
+           _lean_str_list(sorted(set("%s.%s" % (i["owner"], i["name"]) for i in numeric_items))), "",
+           "/-- (counter, file:line, kind): statements guarded by an `if` that reads the counter (\"log\" = logger call),"
+           " and every other read of the counter (\"read\") -/",
+           "def counter_reads : List (String × String × String) := [" +
+           ", ".join('("%s", "%s", "%s")' % c for c in counter_reads) + "]", "",
            "/-- args.polya_percentage_threshold × 1000 -/",
            "def polya_percentage_threshold_permille : Nat := %d" % permille, "",
            "/-- modules reachable from isoquant.py by import -/",
@@ -1738,7 +1913,8 @@ def gen_sample_state():
     info = {"chr_task_resets": task_resets, "processor_fields": sorted(fields), "mutated": sorted(mutated),
             "reset_per_sample": sorted(reset), "args_assignments": [(a, d) for _, a, d in flag_assigns],
             "presets": sorted(presets), "args_assign_sites": {a: sorted(v) for a, v in sites.items()},
-            "pipeline_modules": closure, "polya_percentage_threshold_permille": permille}
+            "pipeline_modules": closure, "polya_percentage_threshold_permille": permille,
+            "counter_reads": counter_reads}
     return "\n".join(out), info
 
 
